@@ -184,6 +184,13 @@ func (g *Gen) verifyFunc(fc *FuncContract) (vc *VC) {
 			Output: "no return is reachable"})
 	}
 	// call-site clauses that did not bind to any call
+	for _, cl := range fc.MapReqs {
+		if !g.seenCall[cl] {
+			g.addObligation(&Obligation{Name: fmt.Sprintf("%s.mapupdate[%s].binding.%s", fc.Key, cl.Anchor, cl.Name), Func: fc.Key, Kind: "binding", Props: cl.Props,
+				Guard: "true", Goal: "false", Static: true, Status: "undischarged", Src: cl.Src,
+				Output: "no update of this map in the function (removed or renamed)", Pos: fmt.Sprintf("%s:%d", cl.File, cl.Line)})
+		}
+	}
 	for _, cl := range fc.CallReqs {
 		if !g.seenCall[cl] {
 			g.addObligation(&Obligation{Name: fmt.Sprintf("%s.call[%s %q].binding.%s", fc.Key, cl.Anchor, cl.Arg, cl.Name), Func: fc.Key, Kind: "binding", Props: cl.Props,
